@@ -1,5 +1,6 @@
 import Nstd.Sha.LemmasHmac
 import Nstd.Sha.LemmasUnroll2
+import Nstd.Sha.LemmasUnroll1
 import Nstd.Sha.ModelU2
 import Nstd.Generated.Sha256BodyProofs
 import Nstd.Sha.PropsSpec
@@ -60,6 +61,21 @@ theorem transform_ignores_uninitialised_locals (t0 w0 state data : List UInt32) 
     (hs : state.length = 8) (hd : data.length = 16) :
     transformFrom t0 w0 state data = (Spec.compress state data, true) :=
   transformFrom_eq_compress t0 w0 state data ht hw hs hd
+
+/-- the build configuration `-D_SHA256_UNROLL` (`RX_8(0); RX_8(8);` with `RX_8(i)` = `R(i+0); … R(i+7);` instead of the
+`i` loop; generated into `Sha256U1.lean` from the current sources as a delta of the base configuration) computes
+what the rolled form computes, for every chaining value, block and initial content of `T`, `W` -/
+theorem transform_unroll_eq (t0 w0 state data : List UInt32) (ht : t0.length = 8) (hw : w0.length = 16)
+    (hs : state.length = 8) (hd : data.length = 16) :
+    ((Sha256U1.Transform data ⟨t0, w0, state, true⟩).state, (Sha256U1.Transform data ⟨t0, w0, state, true⟩).ok) =
+      transform state data ∧
+    transformU1 state data = transform state data := by
+  have h := transformU1_eq_compress t0 w0 state data ht hw hs hd
+  have h' := transformU1_eq_compress (List.replicate 8 0) (List.replicate 16 0) state data (by simp) (by simp) hs hd
+  refine ⟨by rw [transform_eq_compress _ _ hs hd, h.1, h.2], ?_⟩
+  rw [transform_eq_compress _ _ hs hd]
+  unfold transformU1
+  simp only [h'.1, h'.2]
 
 /-- the second build configuration (`-D_SHA256_UNROLL2`: eight scalar registers, nine-parameter macro `R` with
 permuted arguments, `RX_8(0); RX_8(8);` instead of the `i` loop; generated into `Sha256U2.lean` from the
